@@ -83,14 +83,18 @@ type c12Out struct {
 }
 
 type c12Frame struct {
-	Cls string   `json:"cls"`
-	Bin bool     `json:"bin"`
-	B64 string   `json:"b64"`
-	Txt string   `json:"txt"` // the payload again, for the reader of a replay file (not an input)
-	Exp c12Class `json:"exp"`
-	Key string   `json:"key"` // canonical rendering of the message the frame is meant to carry ("" = none)
-	Sub *string  `json:"sub"`
-	Out []c12Out `json:"out"`
+	Cls string `json:"cls"`
+	Bin bool   `json:"bin"`
+	B64 string `json:"b64"`
+	// Frag: byte offsets at which the message is cut into WebSocket fragments (a data frame with
+	// fin=0 per piece, pieces may be empty, then an empty CONTINUATION frame with fin=1); empty =
+	// the whole message in one frame.  Fragmentation is transparent in RFC 6455: the message is the same.
+	Frag []int    `json:"frag,omitempty"`
+	Txt  string   `json:"txt"` // the payload again, for the reader of a replay file (not an input)
+	Exp  c12Class `json:"exp"`
+	Key  string   `json:"key"` // canonical rendering of the message the frame is meant to carry ("" = none)
+	Sub  *string  `json:"sub"`
+	Out  []c12Out `json:"out"`
 	// observation of the individual checks
 	Obs *c12Class `json:"obs,omitempty"`
 }
@@ -677,7 +681,7 @@ func c12Run(c *c12Case) {
 		if c.Frames[i].Bin {
 			typ = websocket.MessageBinary
 		}
-		if err := conn.Write(ctx, typ, p); err != nil {
+		if err := c12Send(ctx, conn, typ, p, c.Frames[i].Frag); err != nil {
 			rec.note("write of frame %d failed: %v", i, err)
 			timedOut = true
 			break
@@ -746,6 +750,38 @@ func c12Run(c *c12Case) {
 	c.RanLockstep = c.Lockstep && !timedOut
 }
 
+// c12Send writes one message: in one frame, or cut at the given offsets into fragments
+// (coder/websocket's message writer emits one fin=0 data frame per Write and an empty fin=1
+// CONTINUATION frame on Close).
+func c12Send(ctx context.Context, conn *websocket.Conn, typ websocket.MessageType, p []byte, frag []int) error {
+	if len(frag) == 0 {
+		return conn.Write(ctx, typ, p)
+	}
+	w, err := conn.Writer(ctx, typ)
+	if err != nil {
+		return err
+	}
+	prev := 0
+	for _, cut := range frag {
+		if cut < prev {
+			cut = prev
+		}
+		if cut > len(p) {
+			cut = len(p)
+		}
+		if _, err := w.Write(p[prev:cut]); err != nil {
+			w.Close()
+			return err
+		}
+		prev = cut
+	}
+	if _, err := w.Write(p[prev:]); err != nil {
+		w.Close()
+		return err
+	}
+	return w.Close()
+}
+
 // ---------------------------------------------------------------------------
 // generator
 
@@ -764,12 +800,39 @@ var c12Words = []string{"hello", "nostr", "relay", "こんにちは", "мир", 
 
 func (g *c12Gen) word() string { return common.Pick(g.r, c12Words) }
 
+// c12Odd: Unicode text that is legal in any JSON string (subscription ids, notices, challenges
+// are arbitrary strings chosen by clients and handlers) but that quoting conventions other than
+// JSON's treat specially: C0 controls with and without a short escape, DEL, C1 controls, format and
+// other non-printing characters of the BMP, non-characters, line separators, non-printing and
+// private-use characters beyond the BMP.
+var c12Odd = []string{"\x00", "\x01", "\x07", "\x08", "\x0b", "\x0c", "\x1b", "\x1f", "\x7f", "\u0080", "\u009f", "\u00ad",
+	"\u200b", "\u202e", "\u2028", "\u2029", "\ufeff", "\ufffd", "\ufffe", "\U0001f600", "\U000e0001", "\U000e007f", "\U000f0000", "\U0010ffff"}
+
+func (g *c12Gen) odd() string {
+	s := common.Pick(g.r, c12Odd)
+	switch g.r.Intn(4) {
+	case 0:
+		s = "a" + s + "b"
+	case 1:
+		s += common.Pick(g.r, c12Odd)
+	}
+	return s
+}
+
+// oddly: with probability pct%, s with such text appended
+func (g *c12Gen) oddly(s string, pct int) string {
+	if g.r.Chance(pct) {
+		return s + " " + g.odd()
+	}
+	return s
+}
+
 func (g *c12Gen) subID(i int) string {
 	s := "s" + strconv.Itoa(i)
 	if g.r.Chance(40) {
 		s += "-" + common.Pick(g.r, []string{"sub", "フィード", "x y", "q\"uote", "ü"})
 	}
-	return s
+	return g.oddly(s, 20)
 }
 
 func (g *c12Gen) filter() c12RFilter {
@@ -1259,15 +1322,15 @@ func (g *c12Gen) outs(final bool, maxLen int64) []c12Out {
 		o := c12Out{K: k}
 		switch r.Intn(7) {
 		case 0:
-			o.T, o.A = "EOSE", tok+" "+g.word()
+			o.T, o.A = "EOSE", g.oddly(tok+" "+g.word(), 30)
 		case 1:
 			e := g.event(1000+k, common.Pick(r, c12EventKinds()))
 			if r.Chance(30) {
 				e.Content = "<b>&amp;</b> \u2028 " + tok // what the relay stores may contain anything
 			}
-			o.T, o.A, o.Ev = "EVENT", tok+" "+g.word(), e
+			o.T, o.A, o.Ev = "EVENT", g.oddly(tok+" "+g.word(), 40), e
 		case 2:
-			o.T, o.A = "NOTICE", tok+": "+g.word()+" 通知 😀"
+			o.T, o.A = "NOTICE", g.oddly(tok+": "+g.word()+" 通知 😀", 30)
 			if maxLen < 1<<16 && r.Chance(50) {
 				// ["NOTICE","<text>"] of a length at, just around, or well beyond the limit for client frames
 				want := int(maxLen) + common.Pick(r, []int{-1, 0, 1, 2, 200})
@@ -1278,18 +1341,18 @@ func (g *c12Gen) outs(final bool, maxLen int64) []c12Out {
 		case 3:
 			o.T, o.A, o.Acc = "OK", c12Hex(tok), r.Bool()
 			o.P = common.Pick(r, []string{"", "duplicate: ", "blocked: ", "invalid: ", "error: ", "pow: ", "rate-limited: "})
-			o.B = common.Pick(r, []string{"", "すでにあります", g.word()})
+			o.B = g.oddly(common.Pick(r, []string{"", "すでにあります", g.word()}), 25)
 		case 4:
-			o.T, o.A = "AUTH", tok+" challenge "+g.word()
+			o.T, o.A = "AUTH", g.oddly(tok+" challenge "+g.word(), 30)
 		case 5:
-			o.T, o.A, o.N = "COUNT", tok+" "+g.word(), common.Pick(r, []uint64{0, 1, 42, 1 << 40, 1<<64 - 1})
+			o.T, o.A, o.N = "COUNT", g.oddly(tok+" "+g.word(), 30), common.Pick(r, []uint64{0, 1, 42, 1 << 40, 1<<64 - 1})
 			if r.Chance(50) {
 				o.Approx = common.Ptr(r.Bool())
 			}
 		default:
-			o.T, o.A = "CLOSED", tok+" "+g.word()
+			o.T, o.A = "CLOSED", g.oddly(tok+" "+g.word(), 30)
 			o.P = common.Pick(r, []string{"", "error: ", "blocked: ", "rate-limited: "})
-			o.B = common.Pick(r, []string{"", "閉じました", g.word()})
+			o.B = g.oddly(common.Pick(r, []string{"", "閉じました", g.word()}), 25)
 		}
 		os = append(os, o)
 	}
@@ -1360,6 +1423,19 @@ func c12Generate(r *common.Rand, idx int) c12Case {
 	for i := range c.Frames {
 		c.Frames[i].Out = g.outs(i == len(c.Frames)-1, c.MaxLen)
 	}
+	// a quarter of the messages (of every class, the final one included) are sent fragmented: 1..3 cuts
+	// anywhere in the payload (also at its ends: empty fragments; also inside a multi-byte character)
+	for i := range c.Frames {
+		if r.Chance(25) {
+			n := len(built[i].payload)
+			var cuts []int
+			for k := 1 + r.Intn(3); k > 0; k-- {
+				cuts = append(cuts, r.Intn(n+1))
+			}
+			sort.Ints(cuts)
+			c.Frames[i].Frag = cuts
+		}
+	}
 	// sanity of the generator itself (a failure here is a harness bug, not a finding)
 	for i, f := range c.Frames {
 		p, _ := base64.StdEncoding.DecodeString(f.B64)
@@ -1401,6 +1477,32 @@ func c12CorpusCases() []c12Case {
 	// F10: white space before the opening bracket
 	cs = append(cs, mk(c12Built{cls: "f10_leading_space", payload: []byte(` ["CLOSE","s0"]`), parse: "CLOSE", valid: true, verify: "na",
 		key: c12RenderMsg(c12RMsg{Label: "CLOSE", Sub: sub}), sub: &sub}))
+	// (corpus/C12/fragmented.jsonl) valid messages sent as several WebSocket fragments: two data frames and the empty
+	// final frame; a cut inside a multi-byte character; an empty first fragment; a rejected frame sent fragmented
+	frag := func(b c12Built, cuts ...int) c12Case {
+		c := mk(b)
+		c.Frames[0].Frag = cuts
+		return c
+	}
+	cs = append(cs, frag(c12ReqOf("req", "REQ", sub, []c12RFilter{{Kinds: &[]int64{1}}}, true), 12))
+	jsub := "フィード"
+	cs = append(cs, frag(c12Built{cls: "close", payload: []byte(c12MsgJSON("CLOSE", c12JSON(jsub))), parse: "CLOSE", valid: true, verify: "na",
+		key: c12RenderMsg(c12RMsg{Label: "CLOSE", Sub: jsub}), sub: &jsub}, 0, 11, 13))
+	cs = append(cs, frag(g.eventMsg("event", "EVENT", ev(1, "fragmented"), true, "ok"), 1, 200))
+	cs = append(cs, frag(c12Built{cls: "not_json", payload: []byte(`["CLOSE","x"`), verify: "na"}, 5))
+	// (corpus/C12/unusual_ids.jsonl) subscription ids with characters that are legal in JSON strings but unusual: the client's
+	// REQ is forwarded, and the handler's EVENT/EOSE/CLOSED for that id must arrive
+	for _, id := range []string{"feed\x01home", "a\x07\x0b\x1fb", "del\x7f", "tag\U000e0001", "nul\x00 \u0080\u200b\ufeff\ufffe\U0010ffff"} {
+		id := id
+		c := mk(c12ReqOf("req", "REQ", id, []c12RFilter{{Kinds: &[]int64{1}}}, true))
+		g.serial += 3
+		c.Frames[0].Out = []c12Out{
+			{K: g.serial - 2, T: "EVENT", A: id, Ev: ev(1, "stored "+strconv.Itoa(g.serial))},
+			{K: g.serial - 1, T: "EOSE", A: id},
+			{K: g.serial, T: "CLOSED", A: id, P: "error: ", B: id},
+		}
+		cs = append(cs, c)
+	}
 	return cs
 }
 
